@@ -63,6 +63,14 @@ def run(ctx, shard):
 def make_case(rng, idx):
     fam = gen.BT_FAMILIES[idx % len(gen.BT_FAMILIES)]
     bt = gen.gen_bt(rng, fam, max_chroms=5, max_bins=28)
+    if idx % 11 == 10:
+        bt = gen.gen_giant_bt(rng)             # > 2**31 bp in total, coordinates near the int32 limit
+        fam = "giant_variable"
+    elif idx % 11 == 9:
+        w_ = int([10**4, 10**5, 10**6, 5 * 10**6][int(rng.integers(4))])       # genomic-scale fixed widths
+        bt = [[f"chr{j + 1}", gen.fixed_edges(int(rng.integers(1, 12)) * w_ + int(rng.integers(0, w_)) + 1, w_)]
+              for j in range(int(rng.integers(1, 5)))]
+        fam = "genomic_scale_fixed"
     n = gen.bt_nbins(bt)
     symm = bool(rng.random() < 0.6)
     form = FORMS[int(rng.integers(len(FORMS)))]
